@@ -320,6 +320,28 @@ def call_np(interp, name, args, kwargs, lineno):
         if isinstance(x, Rat):
             return ONE
         return snap(x).size()
+    if name == 'ndim':
+        # np.ndim(x) == np.asarray(x).ndim: python numbers are 0-d, lists / tuples count their nesting depth
+        x = args[0]
+        if isinstance(x, (Rat, bool)):
+            return ZERO
+        if isinstance(x, ASparse):
+            return Rat.const(2)
+        if isinstance(x, (list, tuple)):
+            d, y = 0, x
+            while isinstance(y, (list, tuple)):
+                d += 1
+                if not y:
+                    break
+                y = y[0]
+            if is_arraylike(y):
+                d += snap(y).ndim
+            return Rat.const(d)
+        if is_arraylike(x):
+            return Rat.const(snap(x).ndim)
+        if x is None or isinstance(x, (str, dict)) or type(x).__name__ in ('AObj', 'OpaqueFn', 'AFuncRef', 'AForeign'):
+            return ZERO                      # np.asarray of an arbitrary object: a 0-d object array
+        raise AnalysisError(f"np.ndim of {x!r}")
     if name in ('all', 'any'):
         x = args[0]
         if isinstance(x, bool):
@@ -331,6 +353,26 @@ def call_np(interp, name, args, kwargs, lineno):
             # (interp.JobFork), see there for what is reported on the outcome that pins the data
             if A.masked_of(a):
                 raise AnalysisError(f"np.{name} over a boolean-mask selection")
+            # 1-D arrays of symbolic length: when the element is the same constant truth value at every index class
+            # (first three, generic, last three) the predicate is decided (e.g. dX == dX[0] on equispaced symbolic faces)
+            if a.ndim == 1 and a.segs is None:
+                try:
+                    n_ = a.shape[0]
+                    cnt = interp.__dict__.setdefault('_qsym', [0])
+                    cnt[0] += 1
+                    from .alg import Poly
+                    tq = ctx.bound_symbol(('q', cnt[0]), Poly.const(3), (n_ - 4).as_poly())
+                    classes = [ZERO, ONE, Rat.const(2), tq, n_ - 3, n_ - 2, n_ - 1]
+                    vs = [a.at((c,)) for c in classes]
+                    if all(v.is_const() for v in vs):
+                        truths = [v.const_value() != 0 for v in vs]
+                        if all(truths):
+                            return True
+                        if not any(truths):
+                            return False
+                        return (name == 'any')       # mixed constants: any is true, all is false
+                except (AnalysisError, AbstractRaise):
+                    pass
             return Rat.atom(('qpred', name, ('line', interp.cur_file, lineno)))
         import itertools
         vals = []
